@@ -38,8 +38,30 @@ def rand_vectors(ctx, family, n, tag=None, env=None):
     return read_ndjson(out)
 
 
+# Families whose vectors go through the exported entry points: a sample of them is also given to the gofasta binary
+# with the equivalent flags (harness/cliwire.go), so that the wiring in cmd/ is under the same properties.
+CLI_FAMILIES = {"snps": 60, "closest": 60, "sam": 25, "variants": 40, "updown": 40}
+
+
+def flag_cli(ctx, family, vecs):
+    n = CLI_FAMILIES.get(family, 0) * (1 if ctx.quick else 10)
+    if n == 0 or not vecs:
+        return 0
+    if not getattr(ctx, "gofasta_built", False):
+        ctx.build(harness=False, gofasta=True)
+    stride = max(1, len(vecs) // n)
+    k = 0
+    for i, v in enumerate(vecs):
+        if (i + ctx.seed) % stride == 0:
+            v["cli"] = True
+            k += 1
+    ctx.extra["cli_wiring_vectors"] = ctx.extra.get("cli_wiring_vectors", 0) + k
+    return k
+
+
 def run_vectors(ctx, family, vecs, tag=None, jobs=None, env=None, timeout=3000):
     tag = tag or family
+    flag_cli(ctx, family, vecs)
     vin = ctx.path("in_%s.ndjson" % tag)
     vout = ctx.path("obs_%s.ndjson" % tag)
     write_ndjson(vin, vecs)
